@@ -14,6 +14,9 @@ package jit
 //@ func (*JITCompiler).compileWithTier
 //@   modifies nothing
 //@   callpre compiler.NewCompilerWithOptLevel arg0 == levelOf(tier)
+// every compilation runs on a compiler (and optimizer) made for it: no constant, copy or
+// expression fact learnt while compiling another route can leak into this one
+//@   callpre (*compiler.Compiler).CompileRoute fresh(arg0)
 //@   ensures err == nil ==> bcsrc(result) == route
 
 //@ func (*JITCompiler).getNextTier
@@ -71,6 +74,9 @@ package jit
 //@   requires jit != nil && currentUnit != nil
 //@   strict
 //@   ensures err == nil ==> bcsrc(result) == route && currentUnit.Bytecode == result
+// a recompilation upgrades the unit it was given in place; it never (re-)enters a unit into the
+// cache table - the unit may have been invalidated while the compiler ran
+//@   atunlock forall(k, string, has(jit.units, k) == atlock(has(jit.units, k)) && jit.units[k] == atlock(jit.units[k]))
 
 //@ func (*JITCompiler).shouldRecompile
 //@   requires jit != nil && unit != nil
